@@ -354,7 +354,7 @@ PROPS = {
         "explanation": "C03.* theorems; sdd stream: model == implementation (canonical form), implementation == spec truth tables.",
     },
     "C14": {
-        "modules": ["RsddModel.Props.C14", "RsddModel.Props.TieOrders", "RsddModel.Props.TieVTree", "RsddModel.Props.TieCnfOrd"],
+        "modules": ["RsddModel.Props.C14", "RsddModel.Props.TieOrders", "RsddModel.Props.TieVTree", "RsddModel.Props.TieVTreeSource", "RsddModel.Props.TieCnfOrd", "RsddModel.Props.TieCnfOrdSource"],
         "streams": [ORD_STREAM],
         "rule": "CNFs with unit/duplicate/tautological/empty clauses and unused indices -> linear, min-fill, FORCE orders and two run-time extensions; "
                 "explicit permutations through VarOrder::new; dtrees for random elimination orders with the derived vtree; vtrees from right_linear / "
@@ -490,7 +490,7 @@ PROPS = {
         "explanation": "C17.* theorems; ser stream: real parsers/serialisers vs specification-level readers of the same text / JSON.",
     },
     "C04": {
-        "modules": ["RsddModel.Props.C04", "RsddModel.Props.TieVTree", "RsddModel.Props.TieTables", "RsddModel.Props.TieTablesSource", "RsddModel.Props.TieSddCore", "RsddModel.Props.TieSddCoreSource", "RsddModel.Props.TieSddQ"],
+        "modules": ["RsddModel.Props.C04", "RsddModel.Props.TieVTree", "RsddModel.Props.TieVTreeSource", "RsddModel.Props.TieTables", "RsddModel.Props.TieTablesSource", "RsddModel.Props.TieSddCore", "RsddModel.Props.TieSddCoreSource", "RsddModel.Props.TieSddQ"],
         "streams": [SDD_STREAM],
         "rule": "as C03; with compression on, every decision node reachable from every result is checked (from its printed canonical form and truth "
                 "tables) for: primes non-false, pairwise exclusive, exhaustive, over the left vtree child's variables; subs over the right child's "
